@@ -220,7 +220,11 @@ macro_rules! aggregation_func_template {
                         any(target_arch = "x86", target_arch = "x86_64")
                     ))] {
                         // Detect runtime CPU features, cache and call
+                        #[cfg(fast_tlsh_verif)]
+                        crate::verif::dispatch_event(stringify!($name), crate::verif::DISPATCH_EVENT_CALL);
                         $dispatch.get_or_init(|| {
+                            #[cfg(fast_tlsh_verif)]
+                            crate::verif::dispatch_event(stringify!($name), crate::verif::DISPATCH_EVENT_INIT);
                             #[cfg(any(target_arch = "x86", target_arch = "x86_64"))]
                             {
                                 if is_x86_feature_detected!("avx2") {
@@ -320,3 +324,139 @@ aggregation_func_template! {
 }
 
 mod tests;
+
+/// Verification hooks (only with `--cfg fast_tlsh_verif`): direct access to
+/// every compiled bucket aggregation back end.  See [`crate::verif`].
+#[cfg(fast_tlsh_verif)]
+pub mod verif_hooks {
+    /// The aggregation function on 48 buckets.
+    pub type Aggregate48 = fn(&mut [u8; 12], &[u32; 48], u32, u32, u32);
+    /// The aggregation function on 128 buckets.
+    pub type Aggregate128 = fn(&mut [u8; 32], &[u32; 128], u32, u32, u32);
+    /// The aggregation function on 256 buckets.
+    pub type Aggregate256 = fn(&mut [u8; 64], &[u32; 256], u32, u32, u32);
+
+    /// Generates safe wrappers of an x86 back end.
+    #[allow(unused_macros)]
+    macro_rules! x86_wrappers {
+        ($module:ident, $name48:ident, $name128:ident, $name256:ident) => {
+            #[allow(unsafe_code)]
+            fn $name48(out: &mut [u8; 12], buckets: &[u32; 48], q1: u32, q2: u32, q3: u32) {
+                unsafe { super::$module::aggregate_48(out, buckets, q1, q2, q3) }
+            }
+            #[allow(unsafe_code)]
+            fn $name128(out: &mut [u8; 32], buckets: &[u32; 128], q1: u32, q2: u32, q3: u32) {
+                unsafe { super::$module::aggregate_128(out, buckets, q1, q2, q3) }
+            }
+            #[allow(unsafe_code)]
+            fn $name256(out: &mut [u8; 64], buckets: &[u32; 256], q1: u32, q2: u32, q3: u32) {
+                unsafe { super::$module::aggregate_256(out, buckets, q1, q2, q3) }
+            }
+        };
+    }
+
+    #[cfg(all(
+        feature = "simd-per-arch",
+        feature = "opt-simd-bucket-aggregation",
+        any(target_arch = "x86", target_arch = "x86_64"),
+        any(
+            feature = "detect-features",
+            all(
+                not(target_feature = "avx2"),
+                not(target_feature = "ssse3"),
+                target_feature = "sse2"
+            )
+        )
+    ))]
+    x86_wrappers!(x86_sse2, sse2_48, sse2_128, sse2_256);
+
+    #[cfg(all(
+        feature = "simd-per-arch",
+        feature = "opt-simd-bucket-aggregation",
+        any(target_arch = "x86", target_arch = "x86_64"),
+        any(
+            feature = "detect-features",
+            all(not(target_feature = "avx2"), target_feature = "ssse3")
+        )
+    ))]
+    x86_wrappers!(x86_ssse3, ssse3_48, ssse3_128, ssse3_256);
+
+    #[cfg(all(
+        feature = "simd-per-arch",
+        feature = "opt-simd-bucket-aggregation",
+        any(target_arch = "x86", target_arch = "x86_64"),
+        any(feature = "detect-features", target_feature = "avx2")
+    ))]
+    x86_wrappers!(x86_avx2, avx2_48, avx2_128, avx2_256);
+
+    /// Whether the CPU feature is available (statically or dynamically).
+    #[allow(unused_macros)]
+    macro_rules! x86_available {
+        ($feature:tt) => {{
+            cfg_if::cfg_if! {
+                if #[cfg(feature = "detect-features")] {
+                    std::arch::is_x86_feature_detected!($feature)
+                } else {
+                    cfg!(target_feature = $feature)
+                }
+            }
+        }};
+    }
+
+    /// Enumerate all usable bucket aggregation back ends.
+    ///
+    /// `"dispatch"` is what the crate itself uses.
+    pub fn for_each_backend(
+        f: &mut dyn FnMut(&'static str, Aggregate48, Aggregate128, Aggregate256),
+    ) {
+        f(
+            "dispatch",
+            super::aggregate_48,
+            super::aggregate_128,
+            super::aggregate_256,
+        );
+        f(
+            "naive",
+            super::naive::aggregate_48,
+            super::naive::aggregate_128,
+            super::naive::aggregate_256,
+        );
+        #[cfg(all(
+            feature = "simd-per-arch",
+            feature = "opt-simd-bucket-aggregation",
+            any(target_arch = "x86", target_arch = "x86_64"),
+            any(
+                feature = "detect-features",
+                all(
+                    not(target_feature = "avx2"),
+                    not(target_feature = "ssse3"),
+                    target_feature = "sse2"
+                )
+            )
+        ))]
+        if x86_available!("sse2") {
+            f("x86_sse2", sse2_48, sse2_128, sse2_256);
+        }
+        #[cfg(all(
+            feature = "simd-per-arch",
+            feature = "opt-simd-bucket-aggregation",
+            any(target_arch = "x86", target_arch = "x86_64"),
+            any(
+                feature = "detect-features",
+                all(not(target_feature = "avx2"), target_feature = "ssse3")
+            )
+        ))]
+        if x86_available!("ssse3") {
+            f("x86_ssse3", ssse3_48, ssse3_128, ssse3_256);
+        }
+        #[cfg(all(
+            feature = "simd-per-arch",
+            feature = "opt-simd-bucket-aggregation",
+            any(target_arch = "x86", target_arch = "x86_64"),
+            any(feature = "detect-features", target_feature = "avx2")
+        ))]
+        if x86_available!("avx2") {
+            f("x86_avx2", avx2_48, avx2_128, avx2_256);
+        }
+    }
+}
